@@ -13,9 +13,12 @@ fn count(hay: &str, needle: &str) -> usize { hay.matches(needle).count() }
 
 /// whole first-generation pipeline after expansion, without the LLVM generator, in the order of
 /// alpha::Compiler::analyze_and_resolve: the sorted error codes and the lint codes
-fn alpha_rest(decls: Vec<penne::alpha::common::Declaration>) -> String {
+fn alpha_rest(decls: Vec<penne::alpha::common::Declaration>) -> String { alpha_rest_full(decls).0 }
+
+fn alpha_rest_full(decls: Vec<penne::alpha::common::Declaration>) -> (String, Vec<penne::alpha::error::Error>) {
     if let Err(errors) = penne::alpha::resolver::check_surface_level_errors(&decls) {
-        return format!("errors={:?} lints=[] stage=surface", errors.sorted().codes()).replace(' ', "");
+        let errors = errors.sorted();
+        return (format!("errors={:?} lints=[] stage=surface", errors.codes()).replace(' ', ""), errors.errors);
     }
     let mut decls = penne::alpha::scoper::analyze(decls);
     decls.sort_by_key(|x| penne::alpha::scoper::get_container_depth(x, u32::MAX));
@@ -25,8 +28,11 @@ fn alpha_rest(decls: Vec<penne::alpha::common::Declaration>) -> String {
     let mut typer = penne::alpha::typer::Typer::default();
     let mut analyzer = penne::alpha::analyzer::Analyzer::default();
     let mut linter = penne::alpha::linter::Linter::default();
-    let mut acc: Result<Vec<penne::alpha::resolved::Declaration>, penne::alpha::error::Errors> = Ok(Vec::new());
+    // exactly as Compiler::analyze_and_resolve: containers and functions are accumulated separately and then combined; the
+    // diagnostics are reported in the order the library returns them (no sorting here: their order is part of C13)
+    let mut parts: Vec<Result<Vec<penne::alpha::resolved::Declaration>, penne::alpha::error::Errors>> = Vec::new();
     for (group, are_containers) in [(containers, true), (functions, false)] {
+        let mut acc: Result<Vec<penne::alpha::resolved::Declaration>, penne::alpha::error::Errors> = Ok(Vec::new());
         for d in &group { typer.forward_declare_structure(d); }
         let group: Vec<_> = if are_containers { group } else {
             let g: Vec<_> = group.into_iter().map(|x| typer.declare(x)).collect();
@@ -51,15 +57,19 @@ fn alpha_rest(decls: Vec<penne::alpha::common::Declaration>) -> String {
             }
             acc = penne::alpha::resolver::accumulate(acc, resolved);
         }
+        parts.push(acc);
     }
+    let functions_part = parts.pop().unwrap();
+    let containers_part = parts.pop().unwrap();
+    let acc = penne::alpha::resolver::combine(containers_part, functions_part);
     let lints: Vec<penne::alpha::linter::Lint> = linter.into();
     let lint_codes: Vec<u16> = lints.iter().map(|x| x.code()).collect();
     // diag: FNV-1a hash of the complete diagnostics (variants, names, locations) in their reported order (C13: determinism)
-    let (codes, dump) = match acc { Ok(_) => (Vec::new(), String::new()), Err(e) => { let e = e.sorted(); (e.codes(), format!("{:?}", e)) } };
+    let (codes, dump, errs) = match acc { Ok(_) => (Vec::new(), String::new(), Vec::new()), Err(e) => (e.codes(), format!("{:?}", e), e.errors) };
     let dump = format!("{}|{:?}", dump, lints);
     let mut h: u64 = 0xcbf29ce484222325;
     for b in dump.bytes() { h ^= b as u64; h = h.wrapping_mul(0x100000001b3); }
-    format!("errors={:?} lints={:?} stage=resolved diag={:016x}", codes, lint_codes, h).replace(", ", ",")
+    (format!("errors={:?} lints={:?} stage=resolved diag={:016x}", codes, lint_codes, h).replace(", ", ","), errs)
 }
 
 fn main() {
@@ -100,6 +110,39 @@ fn main() {
                 let decls = penne::alpha::expander::expand_one("replay.pn", decls);
                 alpha_rest(decls)
             }
+            // C13: every diagnostic of the input rendered in the four colour/charset configurations (as StdOut::new builds them,
+            // index type Char): no panic, no escape sequence when colour is off, plain ASCII when colour is off and arrows are ascii
+            "alpharender" => {
+                let src = String::from_utf8(bytes).unwrap();
+                let decls = alpha_front(&src);
+                let decls = penne::alpha::expander::expand_one("replay.pn", decls);
+                let (_line, errors) = alpha_rest_full(decls);
+                let mut reports = 0; let mut panics = 0; let mut esc = 0; let mut nonascii = 0; let mut failed = 0;
+                for error in &errors {
+                    for (color, ascii) in [(true, false), (true, true), (false, false), (false, true)] {
+                        let cfg = ariadne::Config::default().with_index_type(ariadne::IndexType::Char).with_color(color)
+                            .with_char_set(if ascii { ariadne::CharSet::Ascii } else { ariadne::CharSet::Unicode });
+                        let config = penne::alpha::error::Config::from(cfg).with_color(color);
+                        let source = src.clone();
+                        let r = panic::catch_unwind(panic::AssertUnwindSafe(|| {
+                            let mut buf: Vec<u8> = Vec::new();
+                            let report = error.build_report(config);
+                            let ok = report.write(ariadne::sources(vec![("replay.pn".to_string(), source)]), &mut buf).is_ok();
+                            (ok, buf)
+                        }));
+                        reports += 1;
+                        match r {
+                            Err(_) => panics += 1,
+                            Ok((ok, buf)) => {
+                                if !ok { failed += 1; }
+                                if !color && buf.contains(&0x1b) { esc += 1; }
+                                if !color && ascii && src.is_ascii() && !buf.is_ascii() { nonascii += 1; }
+                            }
+                        }
+                    }
+                }
+                format!("diagnostics={} reports={} panics={} write_errors={} escapes_when_colourless={} nonascii_when_ascii={}", errors.len(), reports, panics, failed, esc, nonascii)
+            }
             // several modules in one input (sections introduced by lines `//// FILE: <path>`), expanded together as the
             // compiler does for one invocation; every module is then analysed on its own; prints the codes per module
             "alphamulti" => {
@@ -124,7 +167,8 @@ fn main() {
                 for (i, (_path, decls)) in modules.into_iter().enumerate() {
                     let r = alpha_rest(decls);
                     let codes = r.split_whitespace().next().unwrap_or("").replace("errors=", "");
-                    out.push(format!("m{}={}", i, codes));
+                    let diag = r.split_whitespace().find(|x| x.starts_with("diag=")).unwrap_or("diag=").replace("diag=", "");
+                    out.push(format!("m{}={} d{}={}", i, codes, i, diag));
                 }
                 out.join(" ")
             }
